@@ -310,10 +310,8 @@ def check_unguarded_steps(chk: Check, repo: Repo) -> None:
         return
     mr = engine(repo)
     sd = repo.func("xknx.core.group_address_dpt", "GroupAddressDPT.set_decoded_data")
-    reviewed = {
-        "AssertionError|GroupAddressDPT.set_decoded_data|…": ("the assertion restates the telegram model: a GroupValueWrite / GroupValueResponse payload is addressed to a group address (CEMIHandler routes individually addressed frames to management, the senders build group telegrams)", None),
-    }
-    check_entry(chk, mr, sd, (), label="eager decode in the consumer loop", rule="consumer-steps-outside-the-guard-raise-nothing", reviewed=reviewed)
+    # "every queued telegram" includes hand-built ones: nothing about the telegram's shape may be asserted here
+    check_entry(chk, mr, sd, (), label="eager decode in the consumer loop", rule="consumer-steps-outside-the-guard-raise-nothing")
     finish(chk, mr)
 
 
